@@ -209,14 +209,14 @@ Proof.
 Qed.
 Lemma to_mont_poly_ok p : bounded 67058538 p ->
   to_mont_poly p = Ok (map to_mont_val p) /\ bounded (2 * Q) (map to_mont_val p)
-  /\ Forall2 (fun r x => congQ r (x * 4294967296)) (map to_mont_val p) p.
+  /\ Forall2 (fun r x => congQ r (x * 4294967296) /\ Z.abs r < 2 * Q) (map to_mont_val p) p.
 Proof.
   intros Hb. unfold to_mont_poly. split; [|split].
   - apply mapM_pure with (P := fun x => Z.abs x <= 67058538); [|exact Hb].
     intros a Ha. apply to_mont_coef_ok. lia.
   - apply map_Forall with (P := fun x => Z.abs x <= 67058538); [|exact Hb].
     intros a Ha. destruct (to_mont_coef_ok a) as (_ & _ & Hbd); lia.
-  - induction Hb as [|x l Hx Hb IHb]; cbn; constructor; [|assumption]. destruct (to_mont_coef_ok x) as (_ & Hcg & _); [lia|exact Hcg].
+  - induction Hb as [|x l Hx Hb IHb]; cbn; constructor; [|assumption]. destruct (to_mont_coef_ok x) as (_ & Hcg & Hbd); [lia|split; assumption].
 Qed.
 
 (* ---------- inverse transform ---------- *)
@@ -405,4 +405,102 @@ Proof.
   rewrite chk64_ok by (unfold i64_min, i64_max; lia). cbn [bind].
   destruct (mont_val_ok (a * u)) as (E & Hc & _ & Hb); [unfold MONT_LO, MONT_HI; lia|].
   repeat split; [exact E|exact Hc|]. unfold Q, MM_OUT in *. lia.
+Qed.
+
+(* ---------- mat_vec_mul: one row = sum over columns of Montgomery products, accumulated unreduced ---------- *)
+Definition in_q (p : list Z) : Prop := Forall (fun x => 0 <= x < Q) p.
+Definition mont_of (um us : list Z) : Prop := Forall2 (fun r x => congQ r (x * 4294967296) /\ Z.abs r < 2 * Q) um us.
+
+Lemma acc_step_cong : forall acc accs a um us,
+  Forall2 congQ acc accs -> in_q a -> mont_of um us ->
+  Forall2 congQ (map3 (fun c x u => c + mm_val x u) acc a um) (padd accs (pmul a us)).
+Proof.
+  intros acc accs a um us Hacc. revert a um us.
+  induction Hacc as [|c c' acc accs Hc Hacc IH]; intros a um us Ha Hm; [cbn; constructor|].
+  destruct a as [|x a]; [cbn; constructor|]. destruct Hm as [|r u um us [Hr Hb] Hm]; [cbn; constructor|].
+  inversion Ha as [|? ? Hx Ha']; subst. unfold padd, pmul. cbn [map3 map2]. constructor.
+  - destruct (mul_mont_ok x r Hx Hb) as (_ & Hcg & _).
+    eapply congQ_trans; [|apply congQ_sym, congQ_mod]. apply congQ_add; [exact Hc|].
+    eapply congQ_trans; [|apply congQ_sym, congQ_mod].
+    apply congQ_cancel_R. eapply congQ_trans; [exact Hcg|].
+    replace (x * u * 4294967296) with (x * (u * 4294967296)) by ring.
+    apply congQ_mul; [reflexivity|exact Hr].
+  - apply IH; assumption.
+Qed.
+
+Lemma row_acc_ok : forall row um us acc accs B,
+  Forall in_q row -> Forall2 mont_of um us -> length row = length um ->
+  bounded B acc -> 0 <= B -> B + Z.of_nat (length row) * MM_OUT <= I32MAX -> Forall2 congQ acc accs ->
+  Forall (fun p => length p = length acc) row -> Forall (fun p => length p = length acc) um ->
+  exists acc', row_acc acc row um = Ok acc' /\ bounded (B + Z.of_nat (length row) * MM_OUT) acc'
+               /\ Forall2 congQ acc' (fold_left padd (map2 pmul row us) accs) /\ length acc' = length acc.
+Proof.
+  induction row as [|a row IH]; intros um us acc accs B Hrow Hum Hlen Hb HB Hfit Hacc Hlr Hlu.
+  - cbn. exists acc. rewrite Z.add_0_r. repeat split; assumption.
+  - destruct Hum as [|uj usj um us Hmj Hum]; [cbn in Hlen; discriminate|].
+    inversion Hrow as [|? ? Ha Hrow']; subst. inversion Hlr as [|? ? Hla Hlr']; subst. inversion Hlu as [|? ? Hlu1 Hlu']; subst.
+    cbn [row_acc map2 fold_left length] in *.
+    assert (Hb2 : Forall (fun u => Z.abs u < 2 * Q) uj).
+    { clear - Hmj. induction Hmj as [|? ? ? ? [_ H]]; constructor; auto. }
+    assert (Hstep : map3M acc_coef acc a uj = Ok (map3 (fun c x u => c + mm_val x u) acc a uj)).
+    { apply map3M_pure with (P := fun c => Z.abs c <= B) (Q := fun x => 0 <= x < Q) (R := fun u => Z.abs u < 2 * Q); try assumption.
+      intros c x u Hc Hx Hu. unfold acc_coef. destruct (mul_mont_ok x u Hx Hu) as (E & _ & Hm). rewrite E. cbn [bind].
+      unfold add32. apply chk32_ok. unfold i32_min, i32_max, I32MAX, MM_OUT in *. rewrite Nat2Z.inj_succ in Hfit. lia. }
+    rewrite Hstep. cbn [bind].
+    set (acc1 := map3 (fun c x u => c + mm_val x u) acc a uj).
+    assert (Hb1 : bounded (B + MM_OUT) acc1).
+    { unfold acc1. apply map3_Forall with (P := fun c => Z.abs c <= B) (Q := fun x => 0 <= x < Q) (R := fun u => Z.abs u < 2 * Q); try assumption.
+      intros c x u Hc Hx Hu. destruct (mul_mont_ok x u Hx Hu) as (_ & _ & Hm). lia. }
+    assert (Hl1 : length acc1 = length acc) by (unfold acc1; apply map3_length; congruence).
+    destruct (IH um us acc1 (padd accs (pmul a usj)) (B + MM_OUT)) as (acc' & E & Bd & C & L); try assumption.
+    + cbn in Hlen. lia.
+    + unfold MM_OUT; lia.
+    + rewrite Nat2Z.inj_succ in Hfit. lia.
+    + apply acc_step_cong; assumption.
+    + rewrite Hl1. exact Hlr'.
+    + rewrite Hl1. exact Hlu'.
+    + exists acc'. rewrite E. repeat split.
+      * eapply bounded_mono; [|exact Bd]. rewrite Nat2Z.inj_succ. lia.
+      * exact C.
+      * congruence.
+Qed.
+
+Lemma zeros_cong n : Forall2 congQ (zeros n) (zeros n).
+Proof. apply Forall2_refl. intros; reflexivity. Qed.
+
+(* whole product: K rows, L columns, NTT-domain vector u with entries below the to_mont bound *)
+Theorem mat_vec_mul_ok (A : list (list (list Z))) (u : list (list Z)) :
+  Forall (fun row => Forall in_q row /\ length row = length u /\ Forall (fun p => length p = 256%nat) row) A ->
+  Forall (fun p => bounded 67058538 p /\ length p = 256%nat) u -> (length u <= 7)%nat ->
+  exists w, mat_vec_mul A u = Ok w /\ Forall (bounded (7 * MM_OUT)) w
+            /\ Forall2 (Forall2 congQ) w (MatrixVectorNTT A u) /\ Forall (fun p => length p = 256%nat) w.
+Proof.
+  intros HA Hu HL. unfold mat_vec_mul.
+  assert (Htm : to_mont u = Ok (map (map to_mont_val) u)).
+  { unfold to_mont. apply mapM_pure with (P := fun p => bounded 67058538 p /\ length p = 256%nat); [|exact Hu].
+    intros p [Hp _]. apply to_mont_poly_ok. exact Hp. }
+  rewrite Htm. cbn [bind].
+  set (um := map (map to_mont_val) u).
+  assert (Hmont : Forall2 mont_of um u).
+  { unfold um. clear - Hu. induction Hu as [|p u [Hp _] Hu IH]; cbn; constructor; [|exact IH].
+    destruct (to_mont_poly_ok p Hp) as (_ & _ & Hc). exact Hc. }
+  assert (Hlum : Forall (fun p => length p = 256%nat) um).
+  { unfold um. clear - Hu. induction Hu as [|p u [_ Hl] Hu IH]; cbn; constructor; [rewrite map_length; exact Hl|exact IH]. }
+  assert (Hlen_um : length um = length u) by (unfold um; apply map_length).
+  unfold MatrixVectorNTT.
+  induction HA as [|row A [Hrow [Hlr Hl256]] HA IH].
+  - cbn. exists []. repeat split; constructor.
+  - cbn [mapM map].
+    assert (P1 : length row = length um) by congruence.
+    assert (P2 : bounded 0 (zeros 256)).
+    { unfold zeros. apply Forall_forall. intros x Hx. apply repeat_spec in Hx. subst. cbn. lia. }
+    assert (P3 : 0 + Z.of_nat (length row) * MM_OUT <= I32MAX) by (unfold I32MAX, MM_OUT; rewrite Hlr; lia).
+    assert (P4 : Forall (fun p => length p = length (zeros 256)) row) by (unfold zeros; rewrite repeat_length; exact Hl256).
+    assert (P5 : Forall (fun p => length p = length (zeros 256)) um) by (unfold zeros; rewrite repeat_length; exact Hlum).
+    destruct (row_acc_ok row um u (zeros 256) (zeros 256) 0 Hrow Hmont P1 P2 (Z.le_refl 0) P3 (zeros_cong 256) P4 P5) as (acc' & E & Bd & C & L).
+    rewrite E. cbn [bind]. destruct IH as (w & Ew & Bw & Cw & Lw). rewrite Ew. cbn [bind].
+    exists (acc' :: w). repeat split.
+    + constructor; [|exact Bw]. eapply bounded_mono; [|exact Bd]. unfold MM_OUT. rewrite Hlr. lia.
+    + constructor; [exact C|exact Cw].
+    + constructor; [|exact Lw]. rewrite L. unfold zeros. apply repeat_length.
 Qed.
